@@ -195,5 +195,130 @@ theorem gemSub_regenerated (hx : Gen.GemCode.gemSub_extracted = true) (s : GStr)
            have hp : Part e rs.length := hv.2 c e rfl hg
            sub_tail rs e start end_ (h.cells.length) hp [hlen, hg, get_append_lt _ _ _ hc])
 
+theorem slice_take {β : Type} (l : List β) (a : Nat) (ha : a ≤ l.length) : slice l 0 (a : Int) = .ok (l.take a) := by
+  have := slice_ok l 0 a (by omega) ha
+  simpa [sliceRunes] using this
+
+theorem slice_drop {β : Type} (l : List β) (b : Nat) (hb : b ≤ l.length) : slice l (b : Int) (l.length : Int) = .ok (l.drop b) := by
+  have := slice_ok l b l.length hb (Nat.le_refl _)
+  rw [this]; simp [sliceRunes, List.take_of_length_le]
+
+/-- `SetCharAt` after the clone's cache has been filled: `$e` are the cached ends (`$hp : Part $e ($rs).length`) -/
+local macro "setCharAt_tail" rs:term:max e:term:max idx:ident hp:term:max "[" ts:Lean.Parser.Tactic.simpLemma,* "]" : tactic => `(tactic| (
+  rcases Int.lt_or_le $idx 0 with hneg | hnn
+  · have hB := idx_error (($e).map Int.ofNat) $idx (.inl hneg)
+    have h0 : ¬ 0 < $idx := by omega
+    gem_run [$ts,*, hB, h0, hneg]
+  · rcases Int.lt_or_le $idx ($e).length with hlt | hge
+    · obtain ⟨k, hidx⟩ : ∃ k : Nat, $idx = k := ⟨($idx).toNat, by omega⟩
+      subst hidx
+      have hk : k < ($e).length := by omega
+      have hB : Go.idx (($e).map Int.ofNat) (k : Int) = .ok ((cOff $e (k + 1) : Nat) : Int) := by
+        have := idx_map_ok $e (k : Int) (by omega) (by omega)
+        simpa [cOff] using this
+      have hA : 0 < (k : Int) → Go.idx (($e).map Int.ofNat) ((k : Int) - 1) = .ok ((cOff $e k : Nat) : Int) := by
+        intro hpos
+        have := idx_map_ok $e ((k : Int) - 1) (by omega) (by omega)
+        have h2 : ((k : Int) - 1).toNat = k - 1 := by omega
+        have h3 : cOff $e k = ($e).getD (k - 1) 0 := by simp [cOff]; omega
+        rw [this, h2, h3]
+      have hab : cOff $e k ≤ cOff $e (k + 1) := ($hp).cOff_mono (by omega) (by omega)
+      have hbn : cOff $e (k + 1) ≤ ($rs).length := ($hp).cOff_le (by omega)
+      have hspan := span_eq $e k
+      have hs1 := slice_take $rs (cOff $e k) (by omega)
+      have hs2 := slice_drop $rs (cOff $e (k + 1)) hbn
+      have hnv1 : ¬ (k : Int) < 0 := by omega
+      have hnv2 : ¬ ($e).length ≤ k := by omega
+      by_cases hpos : 0 < (k : Int)
+      · have hposn : 0 < k := by omega
+        gem_run [$ts,*, hB, hA hpos, hpos, hposn, hspan, hs1, hs2, hnv1, hnv2]
+      · have hposn : ¬ 0 < k := by omega
+        have hz : cOff $e k = 0 := by
+          have : k = 0 := by omega
+          simp [cOff, this]
+        rw [hz] at hs1 hspan
+        have hs1' : slice $rs 0 0 = .ok (($rs).take 0) := by simpa using hs1
+        gem_run [$ts,*, hB, hpos, hposn, hspan, hs1', hs2, hnv1, hnv2]
+    · have hB := idx_error (($e).map Int.ofNat) $idx (.inr (by simpa using hge))
+      have hA : 0 < $idx → (($e).length : Int) ≤ $idx - 1 → Go.idx (($e).map Int.ofNat) ($idx - 1) = .error .index :=
+        fun _ h2 => idx_error _ _ (.inr (by simpa using h2))
+      have hA' : 0 < $idx → $idx - 1 < (($e).length : Int) → Go.idx (($e).map Int.ofNat) ($idx - 1) = .ok ((($e).getD ($idx - 1).toNat 0 : Nat) : Int) :=
+        fun h1 h2 => idx_map_ok $e ($idx - 1) (by omega) h2
+      have hc : ¬ $idx < 0 := by omega
+      by_cases hpos : 0 < $idx
+      · rcases Int.lt_or_le ($idx - 1) ($e).length with h2 | h2
+        · gem_run [$ts,*, hB, hA' hpos h2, hpos, hge, hc]
+        · gem_run [$ts,*, hB, hA hpos h2, hpos, hge, hc]
+      · gem_run [$ts,*, hB, hpos, hge, hc]))
+
+theorem gemSetCharAt_regenerated (hx : Gen.GemCode.gemSetCharAt_extracted = true) (s : GStr) (idx : Int) (r : List Int)
+    (h : Heap) (hv : GemOK h s) : Gen.GemCode.gemSetCharAt s idx r h = H.setCharAt s idx r h := by
+  first
+    | exact absurd hx (by decide)
+    | (unfold Gen.GemCode.gemSetCharAt
+       simp only [gemInitialized_regenerated (by decide), gemSplit_regenerated (by decide), gemClone_regenerated (by decide)]
+       unfold H.setCharAt
+       rcases r with _ | ⟨r0, r1⟩
+       · gem_run
+       · have hr : ¬ ((r1.length : Int) + 1 = 0) := by omega
+         rcases s with ⟨rs, _ | c⟩
+         · setCharAt_tail rs (splitRunes rs) idx (part_splitRunes rs) [hr, H.initialized, H.clone, H.ensure, get_append_two, set_append_two]
+         · have hc := hv.1 c rfl
+           cases hg : h.get c with
+           | none => setCharAt_tail rs (splitRunes rs) idx (part_splitRunes rs) [hr, H.initialized, H.clone, H.ensure, hg]
+           | some e =>
+             have hp : Part e rs.length := hv.2 c e rfl hg
+             setCharAt_tail rs e idx hp [hr, H.initialized, H.clone, H.ensure, hg])
+/-- the loop of `Repeat`: `k` more rounds of `acc = acc.Add(s)` -/
+theorem repeat_loop (s : GStr) (count : Int) (cond : GStr × Int → HM Bool) (body : GStr × Int → HM (GStr × Int))
+    (hc : ∀ st h, cond st h = (h, .ok (decide (st.2 < count)), []))
+    (hb : ∀ st h, body st h = ((add st.1 s h).1, .ok ((add st.1 s h).2.1, st.2 + 1), (add st.1 s h).2.2)) :
+    ∀ (k : Nat) (acc : GStr) (i : Int) (h : Heap), (count - i).toNat = k →
+      whileM (k + 1) cond body (acc, i) h =
+        ((repeatN s k acc h).1, .ok ((repeatN s k acc h).2.1, i + k), (repeatN s k acc h).2.2) := by
+  intro k
+  induction k with
+  | zero =>
+    intro acc i h hk
+    have : ¬ (i < count) := by omega
+    rw [whileM_succ, run_bind_ok (hc _ _), prep_nil]
+    simp [this, run_pure, repeatN]
+  | succ k ih =>
+    intro acc i h hk
+    have : i < count := by omega
+    rw [whileM_succ, run_bind_ok (hc _ _), prep_nil]
+    simp only [this, decide_true, if_true]
+    rw [run_bind_ok (hb _ _), ih _ _ _ (by omega)]
+    simp only [repeatN, prep_mk, Int.natCast_add, Int.cast_ofNat_Int]
+    refine Prod.ext rfl (Prod.ext ?_ rfl)
+    simp only
+    congr 2; omega
+
+theorem gemRepeat_regenerated (hx : Gen.GemCode.gemRepeat_extracted = true) (s : GStr) (count : Int) :
+    Gen.GemCode.gemRepeat s count = okM (H.repeat s count) id := by
+  first
+    | exact absurd hx (by decide)
+    | (funext h
+       unfold Gen.GemCode.gemRepeat
+       simp only [gemAdd_regenerated (by decide)]
+       unfold H.repeat
+       have hloop := fun cond body hc hb => repeat_loop s count cond body hc hb count.toNat zero 0 h (by omega)
+       gem_run
+       rw [hloop]
+       all_goals first
+         | (intro st h'; gem_run; done)
+         | gem_run)
+
+/-- `RepeatStr(s, n)` is `Repeat(New(s), n)`: layer H has no separate function, the right-hand side is the composition
+of `H.new` and `H.repeat` (heap threaded, events concatenated) -/
+theorem gemRepeatStr_regenerated (hx : Gen.GemCode.gemRepeatStr_extracted = true) (rs : List Int) (count : Int) (h : Heap) :
+    Gen.GemCode.gemRepeatStr rs count h =
+      ((H.repeat (H.new rs h).2.1 count (H.new rs h).1).1, .ok (H.repeat (H.new rs h).2.1 count (H.new rs h).1).2.1,
+        (H.new rs h).2.2 ++ (H.repeat (H.new rs h).2.1 count (H.new rs h).1).2.2) := by
+  first
+    | exact absurd hx (by decide)
+    | (unfold Gen.GemCode.gemRepeatStr
+       simp only [gemNew_regenerated (by decide), gemRepeat_regenerated (by decide)]
+       gem_run)
 
 end RosedVerif.GenCodeEq
